@@ -144,6 +144,12 @@ func c08World(t *testing.T, p c08Params) rt.Result {
 			cs = append(cs, faultAt, faultAt+1+r.IntN(18), faultAt+19)
 			sortInts(cs)
 		}
+		// a remote that does not drain its socket at the moment of the fault: corebgp's
+		// answer takes six seconds to get out, and gets out
+		blocked := mix(p.Seed)%7 == 3 && p.Prefix == 0 && v.Storm == 0 && !v.Echo && !closeAfter
+		if blocked {
+			rc.Pair.SetWriteDelay0(func() time.Duration { return 6 * time.Second })
+		}
 		rc.W.Log.Add("tx", ps.Addr.String(), rc.ID, fmt.Sprintf("stream prefix=%d header=%s", p.Prefix, p.Header), "")
 		v.Kick()
 		rc.SendCuts(stream, cs, time.Nanosecond)
@@ -154,6 +160,10 @@ func c08World(t *testing.T, p c08Params) rt.Result {
 			rc.Close()
 		}
 		w.Settle()
+		if blocked {
+			time.Sleep(6500 * time.Millisecond)
+			w.Settle()
+		}
 
 		desc := fmt.Sprintf("[%s/%s prefix=%d header=%s]", p.Dir, p.State, p.Prefix, p.Header)
 		got := sansEcho(rc.Msgs()[base:])
